@@ -38,6 +38,55 @@ def assert_evaluated(p):
     return False
 
 
+def assert_semantic(F, b, ety, tier):
+    """write_bits interpreted (sa/ivl.py) for every width 0..=64, on all dirty values at once (value in [2^n, 2^64)) and on all clean
+    values at once (value in [0, 2^n)), for several buffer states and word sizes, with the backend stubbed: dirty values must reach
+    an explicit panic before anything is written to the backend, clean values must not panic.  Returns (dirty accepted, clean rejected,
+    number of cases) or None when the interpreter cannot follow the code (the structural rule is used then)."""
+    import ivl
+    from ivl import AI, Agg, Ref, Frame, Opaque, mk_variant, UNIT
+    adt = F.adts["impls::buf_bit_writer::BufBitWriter"]
+    flds = [f["name"] for f in adt["variants"][0]["fields"]]
+    if not {"buffer", "space_left_in_buffer", "backend"} <= set(flds):
+        return None
+    dirty_ok, clean_bad, n_cases = [], [], 0
+    words = ("u64", "u8", "u32") if tier == "thorough" else ("u64", "u8")
+    for word in words:
+        W = ivl.TY[word][0]
+        for space in sorted({W, 1, W // 2 + 1}):
+            for n in range(0, 65):
+                for kind in ("clean", "dirty"):
+                    if kind == "dirty" and n == 64:
+                        continue
+                    lo, hi = (0, (1 << n) - 1) if kind == "clean" else (1 << n, (1 << 64) - 1)
+                    calls = []
+
+                    def ww(it, name, args, fargs, fr, t, calls=calls):
+                        calls.append(name)
+                        return mk_variant("std::result::Result", "Ok", [UNIT])
+                    it = ivl.Interp(F, lo, hi, {"traits::words::WordWrite::write_word": ww})
+                    h = Frame({"path": "writer"}, {})
+                    vals = {"buffer": AI(word, 0, 0), "space_left_in_buffer": AI("usize", space, space), "backend": Opaque("backend")}
+                    h.locals[0] = Agg("adt", "impls::buf_bit_writer::BufBitWriter", "BufBitWriter", 0, [vals.get(f, UNIT) for f in flds])
+                    env = {g: g for g in (b.get("generics") or [])}
+                    env["E"] = ety
+                    env["<WW as traits::words::WordWrite>::Word"] = word
+                    n_cases += 1
+                    what = "word %s, %d free bits, n_bits = %d, %s values" % (word, space, n, kind)
+                    try:
+                        it.call_body(b, [Ref(h, 0, ()), it.input("u64"), AI("usize", n, n)], env, 0)
+                        if kind == "dirty":
+                            dirty_ok.append(what + ": returns")
+                    except ivl.Panic as ex:
+                        if kind == "clean":
+                            clean_bad.append("%s: %s" % (what, ex))
+                        elif not str(ex).startswith("explicit panic") or calls:
+                            dirty_ok.append("%s: %s after %d backend writes" % (what, ex, len(calls)))
+                    except (ivl.Unsupported, ivl.Undecided, KeyError, AttributeError, IndexError, TypeError, ValueError):
+                        return None
+    return dirty_ok, clean_bad, n_cases
+
+
 def run_all(chk, fsets, tier):
     import facts
     base = facts.load("default")
@@ -86,10 +135,18 @@ def run_all(chk, fsets, tier):
                        detail={"only_default": [str(x)[:200] for x in sorted(s0 - s1, key=str)[:2]], "only_" + fs: [str(x)[:200] for x in sorted(s1 - s0, key=str)[:2]]},
                        sample={"fn": path[-70:], "paths": len(s1)})
         # ---- G2: the assertion in BufBitWriter::write_bits
-        chk.rule("G2.assert", floor=4, doc="both write_bits implementations panic exactly on value & ((1<<n)-1) != value under `checks`, and no successful path skips the test")
+        chk.rule("G2.assert", floor=4, doc="both write_bits implementations, interpreted under `checks` for every width on all dirty values (>= 2^n_bits) and all clean values at once: dirty values panic before anything reaches the backend, clean values do not panic (structural fallback: the `value & mask == value` test on every successful path)")
         if "checks" in facts.FEATURE_SETS[fs]:
             for e, ety in (("be", rn.BE), ("le", rn.LE)):
                 b = F.one(name="write_bits", trait_is="traits::bits::BitWrite<%s>" % ety, impl_self="impls::buf_bit_writer::BufBitWriter<")
+                sem = assert_semantic(F, b, ety, tier)
+                if sem is not None:
+                    dirty_ok, clean_ok, n = sem
+                    chk.expect("G2.assert", "%s@%s.every_path" % (e, fs), not dirty_ok,
+                               "BufBitWriter<%s>::write_bits under %s accepts a dirty argument: %s" % (e.upper(), fs, "; ".join(dirty_ok[:3])), sample={"cases": n})
+                    chk.expect("G2.assert", "%s@%s" % (e, fs), not clean_ok,
+                               "BufBitWriter<%s>::write_bits under %s rejects a clean argument: %s" % (e.upper(), fs, "; ".join(clean_ok[:3])), sample={"cases": n})
+                    continue
                 okg = False
                 skipped = 0
                 for p in mir.walk(b):
